@@ -235,7 +235,8 @@ type mutCtx struct {
 	rng      *vk.Rand
 	class    string
 	topSize  int // size of the canonical top-level encoding (to scale unknown payloads)
-	unkMode  int // for clsUnknown: 0 tiny, 1 just within 10%, 2 beyond 10%, 3 huge
+	unkMode  int // for clsUnknown: 0 tiny, 1 just within 10%, 2 beyond 10%, 3 huge, 4 one bytes field that grows the encoding by about `grow` bytes
+	grow     int
 	maxDepth int
 }
 
@@ -367,6 +368,19 @@ func mutateLevel(fs []fld, s *msch, ctx *mutCtx) ([]fld, string) {
 		case 2:
 			nf = fld{num: num, wt: 2, raw: rng.Bytes(ctx.topSize*12/100 + 2)}
 			sub = "bytes-12pct"
+		case 4:
+			n := ctx.grow - 2 // tag + length prefix
+			if num >= 16 {
+				n--
+			}
+			if n >= 128 {
+				n--
+			}
+			if n < 0 {
+				n = 0
+			}
+			nf = fld{num: num, wt: 2, raw: rng.Bytes(n)}
+			sub = "bytes-sized"
 		default:
 			if rng.Bool() {
 				n := ctx.topSize + rng.Intn(ctx.topSize+1)
